@@ -146,6 +146,7 @@ class World:
         self._digest = hashlib.sha256()
         self.seq = 0
         self.routes: t.Dict[t.Tuple[str, int], t.Any] = {}  # (host, port) -> peer
+        self.flap_ports: t.Dict[int, int] = {}  # port -> number of coming connection attempts that are refused
         self.default_peer = None
         self.conns: t.List[net.Conn] = []
         self.deliveries: t.List[t.Optional[dict]] = []  # delivery spec per connection index (None = whole)
@@ -180,6 +181,12 @@ class World:
         self.log("net.connect", host, port)
         if self.partitioned or (host, port) in self.refuse:
             self.stats["noconn"] += 1
+            return None
+        if self.flap_ports.get(port, 0) > 0:
+            # fault: the listener on that port is not (yet / any more) there for the next n connection attempts
+            self.flap_ports[port] -= 1
+            self.stats["noconn"] += 1
+            self.stats["connflap"] += 1
             return None
         peer = self.routes.get((host, port))
         if peer is None:
